@@ -8,6 +8,7 @@ import JominiModel.Model.TextReader
 import JominiModel.Spec.TextReader
 import JominiModel.Proofs.TextReaderFaithful
 import JominiModel.Props.C07
+import JominiModel.Proofs.TextDeAgree
 /-
 C02 end to end at the model level, from BYTES to VALUE: the text tape parser model (`TextTape.parse`,
 slice C01) composed with the tape deserializer model (`TextDe.deTape`, this slice).
@@ -942,6 +943,21 @@ theorem C02_paths_end_to_end (enc : TextDe.Enc) (ty : TextDe.Ty) (fs : JFields) 
       TextDe.deStream enc ty ((TextReader.sliceTokens (jrenderF fs ++ gt)).toks.map toRTok) = valueOf enc ty (toDoc fs) := by
   obtain ⟨T, b, h1, h2⟩ := C02_tape_end_to_end enc ty fs gt hgt hv hb (splain_plainF fs hp) hroot hfit
   exact ⟨T, b, h1, h2, (C02_stream_end_to_end enc ty fs gt hgt hv hb hp hroot (TextDe.fitsT_fits enc hfit)).2⟩
+
+/-- C02 end to end, EVERY root target type (errors included): from the same BYTES the tape path and
+the stream path return the same result -- the same value or the same error class, namely
+`valueOf` -- unless the (type, document) pair contains one of the combinations listed in `Bad`
+(each of which has a concrete diverging witness: `C02_divergent_witnesses`). -/
+theorem C02_error_agreement_end_to_end (enc : TextDe.Enc) (ty : TextDe.Ty) (fs : JFields) (gt : Bytes)
+    (hgt : Blank gt) (hv : JValidF fs gt) (hb : hasBom (jrenderF fs ++ gt) = false) (hp : SPlainF fs)
+    (hroot : Ty.isRoot ty = true) :
+    (∃ T b, TextTape.parse (jrenderF fs ++ gt) = .ok T b ∧
+      TextDe.deTape enc ty (toTextDeTape T) = valueOf enc ty (toDoc fs) ∧
+      TextDe.deStream enc ty ((TextReader.sliceTokens (jrenderF fs ++ gt)).toks.map toRTok) = valueOf enc ty (toDoc fs)) ∨
+    Bad enc false ty (.obj (toDoc fs)) := by
+  rcases TextDe.fitsT_or_bad enc (ty.height + 1) ty false (.obj (toDoc fs)) (Nat.lt_succ_self _) with h | h
+  · exact Or.inl (C02_paths_end_to_end enc ty fs gt hgt hv hb hp hroot h)
+  · exact Or.inr h
 
 /-- C02 end to end, streaming reader: the same for every fault-free read schedule and every buffer
 capacity that fits (`need ≤ cap`), via C07_stream_faithful. -/
